@@ -57,7 +57,9 @@ __CPROVER_ensures(X2_LOGGED(X2_REC) && (ki[0]->sign == RLC_POS || ki[0]->sign ==
 void bn_rec_sac_x2(int8_t *b, size_t *len, const bn_t *k, const bn_t u, size_t c, size_t m, size_t n, int cof)
 __CPROVER_requires(c == 1 && m == 4 && n == g_pub_bits && *len > X2_L && *len <= RLC_FP_BITS)
 VC_ASSIGNS(__CPROVER_object_upto(b, 4 * *len), *len, g_ev_n, g_ev_bad)
-__CPROVER_ensures(*len == X2_L && X2_LOGGED(X2_SAC));
+__CPROVER_ensures(*len == X2_L && X2_LOGGED(X2_SAC))
+/* the recoded columns are bits (their VALUES are the secret) */
+__CPROVER_ensures(__CPROVER_forall { size_t vq; (vq < 4 * RLC_FP_BITS) ==> (b[vq] == 0 || b[vq] == 1) });
 void ep2_norm_x2(ep2_t r, const ep2_t p) VC_ASSIGNS(VC_EP2(r), g_ev_n, g_ev_bad) __CPROVER_ensures(X2_LOGGED(X2_NORM));
 void ep2_norm_sim_x2(ep2_t *r, const ep2_t *t, int n)
 __CPROVER_requires(n == 7)
